@@ -1,27 +1,160 @@
-use vharness::arena::KeyOpts;
-use vharness::explore::{explore, Config, Report};
-use vharness::ops::Alphabet;
-use vharness::ptypes::PType;
-use vharness::universe::{Embed, Universe};
-use vharness::dispatch_ptype;
+//! `vh batch <spec.json> <out.json>`: run a list of engine runs on a thread pool.
+//! `vh replay <replay.json>`: re-execute a recorded counterexample twice.
 
-fn run<P: PType>(uname: &str, embed: Embed, cfg: &Config) -> Report {
-    let uni = Universe::new(uname, embed, P::WIDTH);
-    explore::<prefix_trie::PrefixMap<P, u32>>(&uni, cfg, &[("exact", vharness::obs::exact::<P>), ("lpm", vharness::obs::lpm::<P>), ("iters", vharness::obs::iters::<P>), ("cover", vharness::obs::cover::<P>), ("children", vharness::obs::children::<P>)])
+use std::sync::atomic::{AtomicUsize, Ordering};
+use std::sync::Mutex;
+use std::time::Duration;
+
+use serde_json::{json, Value};
+
+use vharness::arena::KeyOpts;
+use vharness::dispatch_ptype;
+use vharness::explore::{explore, history_of, Config, Found, Report};
+use vharness::ops::{Alphabet, Op};
+use vharness::ptypes::PType;
+use vharness::registry;
+use vharness::universe::{Embed, Universe};
+
+fn s<'a>(v: &'a Value, k: &str, d: &'a str) -> &'a str {
+    v.get(k).and_then(|x| x.as_str()).unwrap_or(d)
+}
+fn u(v: &Value, k: &str, d: u64) -> u64 {
+    v.get(k).and_then(|x| x.as_u64()).unwrap_or(d)
+}
+fn b(v: &Value, k: &str, d: bool) -> bool {
+    v.get(k).and_then(|x| x.as_bool()).unwrap_or(d)
+}
+fn strs(v: &Value, k: &str) -> Vec<String> {
+    v.get(k).and_then(|x| x.as_array()).map(|a| a.iter().filter_map(|x| x.as_str().map(|s| s.to_string())).collect()).unwrap_or_default()
+}
+
+pub fn op_json(op: &Op, uni: &Universe) -> Value {
+    let k = uni.keys.get(op.key as usize).copied().unwrap_or((0, 0));
+    json!({"kind": format!("{:?}", op.kind), "key_id": op.key, "key": [format!("{:#034x}", k.0), k.1], "rep": op.rep, "arg": op.arg, "text": op.describe(uni)})
+}
+
+fn found_json(f: &Found, uni: &Universe) -> Value {
+    json!({
+        "property": f.viol.prop, "site": f.viol.site, "cond": f.viol.cond, "detail": f.viol.detail,
+        "at": f.at, "occurrences": f.occurrences,
+        "history": f.history.iter().map(|o| op_json(o, uni)).collect::<Vec<_>>(),
+    })
+}
+
+fn report_json(r: &Report, uni: &Universe, spec: &Value) -> Value {
+    json!({
+        "spec": spec, "run": r.run, "engine": "explore",
+        "states": r.states, "shape_states": r.shape_states, "canonical_states": r.canonical_states,
+        "transitions": r.transitions, "self_loops": r.self_loops, "layers": r.layers,
+        "observer_evals": r.observer_evals, "pruned": r.pruned, "known_hits": r.known_hits,
+        "op_counts": r.op_counts, "exhaustive": r.exhaustive, "cap_hit": r.cap_hit,
+        "digest": format!("{:016x}", r.digest), "wall_s": r.wall_s, "samples": r.samples,
+        "max_arena_len": r.max_arena_len, "n_keys": uni.keys.len(), "n_queries": uni.queries.len(),
+        "found": r.found.iter().map(|f| found_json(f, uni)).collect::<Vec<_>>(),
+    })
+}
+
+fn config_of(spec: &Value, idx: usize) -> Config {
+    let alpha = match s(spec, "alpha", "full") {
+        "structural" => Alphabet::Structural,
+        "canonical" => Alphabet::Canonical,
+        _ => Alphabet::Full,
+    };
+    let threads = u(spec, "threads", 1) as usize;
+    Config {
+        alpha,
+        key_opts: KeyOpts { reps: b(spec, "reps", false), layout: b(spec, "layout", false) },
+        two_reps: b(spec, "two_reps", b(spec, "reps", false)),
+        retain_all_subsets: b(spec, "retain_all", true),
+        threads,
+        max_states: u(spec, "max_states", 20_000_000) as usize,
+        max_wall_s: spec.get("max_wall_s").and_then(|x| x.as_f64()).unwrap_or(3000.0),
+        stop_props: strs(spec, "stop_props"),
+        known: spec
+            .get("known")
+            .and_then(|x| x.as_array())
+            .map(|a| a.iter().filter_map(|t| Some((t.get(0)?.as_str()?.to_string(), t.get(1)?.as_str()?.to_string(), t.get(2)?.as_str()?.to_string()))).collect())
+            .unwrap_or_default(),
+        worker_base: (idx * threads) % 48,
+        deep: b(spec, "deep", false),
+        run_label: format!("{} {} {}/{} {} reps={} layout={}", s(spec, "kind", "map"), s(spec, "ptype", "u8"), s(spec, "universe", "U2"), s(spec, "embed", "hi"), s(spec, "alpha", "full"), b(spec, "reps", false), b(spec, "layout", false)),
+    }
+}
+
+fn run_explore<P: PType>(spec: &Value, idx: usize) -> Value {
+    let embed = if s(spec, "embed", "hi") == "lo" { Embed::Lo } else { Embed::Hi };
+    let uni = Universe::new(s(spec, "universe", "U2"), embed, P::WIDTH);
+    let cfg = config_of(spec, idx);
+    let obs_names = strs(spec, "observers");
+    let rep = if s(spec, "kind", "map") == "set" {
+        let obs = registry::set_observers::<P>(&obs_names);
+        explore::<prefix_trie::PrefixSet<P>>(&uni, &cfg, &obs)
+    } else {
+        let obs = registry::map_observers::<P>(&obs_names);
+        explore::<prefix_trie::PrefixMap<P, u32>>(&uni, &cfg, &obs)
+    };
+    report_json(&rep, &uni, spec)
+}
+
+fn run_one(spec: &Value, idx: usize) -> Value {
+    let ptype = s(spec, "ptype", "u8").to_string();
+    match s(spec, "engine", "explore") {
+        "explore" => dispatch_ptype!(ptype.as_str(), run_explore(spec, idx)),
+        other => registry::run_other_engine(other, spec, idx),
+    }
 }
 
 fn main() {
     vharness::viol::install_quiet_panic_hook();
     let args: Vec<String> = std::env::args().collect();
-    let ptype = args.get(1).map(|s| s.as_str()).unwrap_or("u8");
-    let uname = args.get(2).map(|s| s.as_str()).unwrap_or("U2");
-    let embed = if args.get(3).map(|s| s.as_str()) == Some("lo") { Embed::Lo } else { Embed::Hi };
-    let alpha = match args.get(4).map(|s| s.as_str()) { Some("structural") => Alphabet::Structural, Some("canonical") => Alphabet::Canonical, _ => Alphabet::Full };
-    let reps = args.get(5).map(|s| s == "reps").unwrap_or(false);
-    let threads: usize = args.get(6).and_then(|s| s.parse().ok()).unwrap_or(1);
-    let cfg = Config { alpha, key_opts: KeyOpts { reps, layout: false }, two_reps: reps, retain_all_subsets: true, threads, max_states: 50_000_000, max_wall_s: 3600.0, stop_props: vec![], known: vec![], worker_base: 0 };
-    let r = dispatch_ptype!(ptype, run(uname, embed, &cfg));
-    println!("evals={} {} states={} shapes={} canonical={} transitions={} self_loops={} layers={} pruned={} wall={:.2}s digest={:x} max_arena={}", r.observer_evals, r.run, r.states, r.shape_states, r.canonical_states, r.transitions, r.self_loops, r.layers, r.pruned, r.wall_s, r.digest, r.max_arena_len);
-    for f in &r.found { println!("VIOL {} {} {} x{} :: {} :: hist={:?}", f.viol.prop, f.viol.site, f.viol.cond, f.occurrences, f.viol.detail, f.history.len()); }
-    println!("{:?}", r.op_counts);
+    match args.get(1).map(|x| x.as_str()) {
+        Some("batch") => {
+            let spec: Value = serde_json::from_str(&std::fs::read_to_string(&args[2]).expect("read spec")).expect("parse spec");
+            let out_path = args[3].clone();
+            let runs: Vec<Value> = spec.get("runs").and_then(|x| x.as_array()).cloned().unwrap_or_default();
+            let jobs = u(&spec, "jobs", 16) as usize;
+            let stall_s = u(&spec, "stall_s", 30);
+            // watchdog: a library call pending for too long is reported as divergence
+            {
+                let out_path = out_path.clone();
+                vharness::viol::start_watchdog(Duration::from_secs(stall_s), move |info| {
+                    let hist = history_of(&info.hist);
+                    let v = json!({"stall": {"run": info.run, "at": info.at, "history": hist.iter().map(|o| format!("{:?}", o)).collect::<Vec<_>>(), "history_ops": hist.iter().map(|o| json!({"kind": format!("{:?}", o.kind), "key_id": o.key, "rep": o.rep, "arg": o.arg})).collect::<Vec<_>>(), "op": info.op.map(|o| json!({"kind": format!("{:?}", o.kind), "key_id": o.key, "rep": o.rep, "arg": o.arg})), "seconds": stall_s}});
+                    let _ = std::fs::write(format!("{out_path}.stall"), serde_json::to_string_pretty(&v).unwrap());
+                    println!("STALL {}", v);
+                    std::process::exit(3);
+                });
+            }
+            let next = AtomicUsize::new(0);
+            let results: Mutex<Vec<(usize, Value)>> = Mutex::new(vec![]);
+            std::thread::scope(|sc| {
+                for _ in 0..jobs.min(runs.len()).max(1) {
+                    sc.spawn(|| loop {
+                        let i = next.fetch_add(1, Ordering::SeqCst);
+                        if i >= runs.len() {
+                            break;
+                        }
+                        let r = vharness::viol::guarded(|| run_one(&runs[i], i));
+                        let v = match r {
+                            Ok(v) => v,
+                            Err(msg) => json!({"spec": runs[i], "machinery_error": msg}),
+                        };
+                        results.lock().unwrap().push((i, v));
+                    });
+                }
+            });
+            let mut res = results.into_inner().unwrap();
+            res.sort_by_key(|x| x.0);
+            let out = json!({"runs": res.into_iter().map(|x| x.1).collect::<Vec<_>>()});
+            std::fs::write(&out_path, serde_json::to_string(&out).unwrap()).expect("write out");
+        }
+        Some("replay") => {
+            let code = registry::replay(&args[2]);
+            std::process::exit(code);
+        }
+        _ => {
+            eprintln!("usage: vh batch <spec.json> <out.json> | vh replay <replay.json>");
+            std::process::exit(2);
+        }
+    }
 }
